@@ -440,6 +440,34 @@ Definition loc_set (m : objmap) (l : res_loc) (o : obj) : objmap :=
                  end
   end.
 
+(* Document::inherited_resources (fix: commit for C11-resources-shadow): the Resources dictionary of the nearest
+   ancestor that has the entry.
+     for _ in 0..self.objects.len() { parent_id = node.get("Parent").as_reference().ok()?;
+        node = self.get_dictionary(parent_id).ok()?;
+        if let Ok(r) = node.get("Resources") { return self.dereference(r).ok()?.1.as_dict().ok().cloned() } }  None *)
+Fixpoint inherited_loop (fuel : nat) (m : objmap) (node : dict) : option dict :=
+  match fuel with
+  | O => None
+  | S k =>
+    match as_ref (dict_get node K_Parent) with
+    | None => None
+    | Some pid =>
+      match get_dictionary m pid with
+      | None => None
+      | Some pn =>
+        match dict_get pn K_Resources with
+        | Some r => match dereference m r with Some (_, ODict rd) => Some rd | _ => None end
+        | None => inherited_loop k m pn
+        end
+      end
+    end
+  end.
+Definition inherited_resources (m : objmap) (node : dict) : option dict := inherited_loop (length m) m node.
+
+(* the dictionary a page without a Resources entry gets: a copy of the inherited one (inherited.unwrap_or_default()) *)
+Definition initial_resources (m : objmap) (node : dict) : dict :=
+  match inherited_resources m node with Some rd => rd | None => [] end.
+
 Definition get_or_create_resources (d : doc) (page : oid) : doc * option res_loc :=
   let m := d_objects d in
   match get_object m page with
@@ -451,7 +479,8 @@ Definition get_or_create_resources (d : doc) (page : oid) : doc * option res_loc
       | Some t =>
         match lookup m t with
         | Some (ODict td) =>
-          let td' := if dict_has td K_Resources then td else dict_set td K_Resources (ODict []) in
+          let td' := if dict_has td K_Resources then td
+                     else dict_set td K_Resources (ODict (initial_resources m pd)) in
           (with_objs d (update m t (ODict td')), Some (RLEntry t))
         | _ => (d, None)
         end
